@@ -108,14 +108,17 @@ def run_case(args):
             rl.sql("PRAGMA disable_optimizer")
             un = rl.sql(q.sql)
             rl.sql("PRAGMA enable_optimizer")
-            if un["ok"] and compare(un["rows"], ref["rows"], q.order):
-                culprits = []
-                for name in sorted((a.get("raw", {}).get("rules") or {})):
-                    rl.cmd({"op": "deny_rules", "rules": [name]})
-                    x = rl.sql(q.sql)
-                    if x["ok"] and compare(x["rows"], ref["rows"], q.order):
-                        culprits.append(name)
-                rl.cmd({"op": "deny_rules", "rules": []})
+            # which single rules, when denied, make the optimized answer agree with the reference? (also
+            # when the unoptimized plan cannot run at all, e.g. with subqueries)
+            culprits = []
+            for name in sorted((a.get("raw", {}).get("rules") or {})):
+                rl.cmd({"op": "deny_rules", "rules": [name]})
+                x = rl.sql(q.sql)
+                if x["ok"] and compare(x["rows"], ref["rows"], q.order):
+                    culprits.append(name)
+            rl.cmd({"op": "deny_rules", "rules": []})
+            unopt_agrees = un["ok"] and compare(un["rows"], ref["rows"], q.order)
+            if unopt_agrees or (culprits and not un["ok"]):
                 # commutativity / associativity rules only expose the match of the real culprit
                 core = [c for c in culprits if not c.endswith(("-comm", "-assoc"))] or culprits
                 sig = "optimizer:" + ("+".join(core[:3]) if core else "unattributed")
